@@ -1126,6 +1126,104 @@ func propC20(r *Run, w *World) {
 
 	// R8 deterministic selection
 	c15Deterministic(r, w, "C20.R8")
+
+	// R9 tables are what their literals say
+	r.Rule("C20.R9", "the name/number tables are written only by their literals: every map update or delete on a package-level table of auparse, rule or aucoalesce (or on a map reached through one) is either the literal's own initialisation or one of the reviewed start-up writers (ppc64/ppc64le aliases of the ppc syscall table, the reverse tables of package rule, the normalisation index built from the YAML)", 4)
+	{
+		isTableGlobal := func(g *ssa.Global) bool {
+			if g.Pkg == nil {
+				return false
+			}
+			switch shortName(g.Pkg.Pkg.Path()) {
+			case "auparse", "rule", "aucoalesce":
+			default:
+				return false
+			}
+			_, isMap := g.Type().(*types.Pointer).Elem().Underlying().(*types.Map)
+			return isMap
+		}
+		// the global a map value derives from (loaded from it, looked up in it, ranged out of it)
+		var origin func(v ssa.Value, depth int) *ssa.Global
+		origin = func(v ssa.Value, depth int) *ssa.Global {
+			if depth > 6 {
+				return nil
+			}
+			switch x := stripConv(v).(type) {
+			case *ssa.UnOp:
+				if x.Op == token.MUL {
+					if g, ok := x.X.(*ssa.Global); ok && isTableGlobal(g) {
+						return g
+					}
+				}
+			case *ssa.Lookup:
+				return origin(x.X, depth+1)
+			case *ssa.Extract:
+				switch t := x.Tuple.(type) {
+				case *ssa.Lookup:
+					return origin(t.X, depth+1)
+				case *ssa.Next:
+					if rg, ok := t.Iter.(*ssa.Range); ok {
+						return origin(rg.X, depth+1)
+					}
+				}
+			case *ssa.Phi:
+				for _, e := range x.Edges {
+					if g := origin(e, depth+1); g != nil {
+						return g
+					}
+				}
+			}
+			return nil
+		}
+		reviewed := func(fn *ssa.Function, g *ssa.Global, in ssa.Instruction) (bool, string) {
+			name := g.Name()
+			root := rootFn(fn)
+			switch {
+			case root.Synthetic != "" && strings.HasPrefix(root.Name(), "init"):
+				return true, "the literal's own initialisation"
+			case name == "AuditSyscalls" && strings.HasPrefix(root.Name(), "init"):
+				// AuditSyscalls["ppc64"|"ppc64le"] = AuditSyscalls["ppc"]
+				if mu, ok := in.(*ssa.MapUpdate); ok {
+					k, isK := constString(mu.Key)
+					src := origin(mu.Value, 0)
+					if isK && (k == "ppc64" || k == "ppc64le") && src == g {
+						if _, direct := stripConv(mu.Map).(*ssa.UnOp); direct {
+							return true, "ppc64/ppc64le share the ppc table"
+						}
+					}
+				}
+			case strings.HasPrefix(name, "reverse"):
+				return true, "reverse table (its contents are decided by the reverse-table rule)"
+			case name == "syscallNorms" || name == "recordTypeNorms":
+				return true, "normalisation index built from the embedded YAML (decided by R6 and R8)"
+			}
+			return false, ""
+		}
+		for _, fn := range w.SrcFuncs() {
+			instrsOf(fn, func(in ssa.Instruction) {
+				var m ssa.Value
+				what := ""
+				switch x := in.(type) {
+				case *ssa.MapUpdate:
+					m, what = x.Map, "updated"
+				case *ssa.Call:
+					if calleeName(x) == "delete" && len(x.Call.Args) == 2 {
+						m, what = x.Call.Args[0], "deleted from"
+					}
+				}
+				if m == nil {
+					return
+				}
+				g := origin(m, 0)
+				if g == nil {
+					return
+				}
+				ok, why := reviewed(fn, g, in)
+				key := fmt.Sprintf("%s.%s %s in %s", shortName(g.Pkg.Pkg.Path()), g.Name(), what, fnName(fn))
+				r.Check(ok, key, in.Pos(), why, fmt.Sprintf("the table %s is %s after its literal was built (in %s): what the table says at run time is no longer what its literal says, and the exhaustive checks of the literal do not cover it", g.Name(), what, fnName(fn)))
+			})
+		}
+	}
 }
 
 func archLike(s string, names map[string]bool) bool {
